@@ -241,14 +241,18 @@ def content_of(frame):
 
     sha = lambda b: hashlib.sha1(bytes(b)).hexdigest()[:12]
 
+    import copy
+
+    data = copy.deepcopy(frame.data)      # (a snapshot: consumers may annotate the dict afterwards)
+
     if not frame.has_image:
-        return {'img': None, 'jpg': None, 'data': frame.data}
+        return {'img': None, 'jpg': None, 'data': data}
 
     has_jpg = frame.has_jpg
     jpg     = sha(frame.jpg) if has_jpg else None
     img     = frame.image
 
-    return {'img': (tuple(img.shape), frame.format, None if has_jpg else sha(img.tobytes())), 'jpg': jpg, 'data': frame.data}
+    return {'img': (tuple(img.shape), frame.format, None if has_jpg else sha(img.tobytes())), 'jpg': jpg, 'data': data}
 
 
 _filter_cls = None
@@ -346,7 +350,10 @@ def SimFilterClass():
                         fresh = payload('bgr', spec['name'], w.current.incarnation, seq, t)[0]
                         buf   = self._bufs.setdefault(t, fresh.image.copy())
                         buf[...] = fresh.image
-                        out[t] = Frame(buf, fresh.data, 'BGR')
+                        dat   = self._bufs.setdefault((t, 'data'), {})        # ... and one state dict per topic, updated in place
+                        dat.clear()
+                        dat.update(fresh.data)
+                        out[t] = Frame(buf, dat, 'BGR')
 
                 elif pl is not None:    # {'rotate': True} -> kind of (topic j, seq k) = KINDS[(j + k) % len]
                     out = {t: payload(KINDS[(j + seq) % len(KINDS)], spec['name'], w.current.incarnation, seq, t)[0]
@@ -389,6 +396,11 @@ def SimFilterClass():
 
             if spec.get('log_content'):
                 rec['content'] = {t: content_of(f) for t, f in frames.items()}
+
+            if spec.get('annotate'):      # the usual way filters add results: write into the received frame's data in place
+                for t, f in frames.items():
+                    if isinstance(f.data, dict):
+                        f.data[f'seen_by_{spec["name"]}'] = k
             w.activity()
             self._fault('process', k)
 
